@@ -70,6 +70,8 @@ def node_ids(mod, t, v, syn, out, depth=0):
         out.add("INTEGER/%s/%s%s@%s" % (cc, vc, big, syn))
     elif k == "ENUMERATED":
         vc = "root" if any(val == v for n, val in rt.items) else "add"
+        if vc == "add" and [val for n, val in rt.ext_items].index(v) >= 64:
+            vc = "add+idx64"
         out.add("ENUMERATED/%s/%s@%s" % ("ext" if rt.ext_items is not None else "plain", vc, syn))
     elif k == "REAL":
         if v != v:
@@ -111,7 +113,8 @@ def node_ids(mod, t, v, syn, out, depth=0):
         out.add("%s/%s%s/%s%s%s%s@%s" % (k, cc, al, vc, ln, tz, xs, syn))
     elif k in ("SEQUENCE", "SET"):
         used_add = rt.ext is not None and any(c.name in v for c in rt.ext)
-        out.add("%s/%s/%s@%s" % (k, "ext" if rt.ext is not None else "plain", "add" if used_add else "root", syn))
+        out.add("%s/%s%s/%s@%s" % (k, "ext" if rt.ext is not None else "plain", "" if rt.comps else "+emptyroot",
+                                   "add" if used_add else "root", syn))
         for c in rt.all_comps():
             if c.name in v:
                 node_ids(mod, c.type, v[c.name], syn, out, depth + 1)
@@ -120,8 +123,8 @@ def node_ids(mod, t, v, syn, out, depth=0):
         c = [c for c in rt.all_comps() if c.name == alt][0]
         is_add = rt.ext is not None and c in rt.ext
         bigtag = ""
-        if syn == "OER" and any(num >= 63 for cls, num in mod.outer_tags(c)):
-            bigtag = "+tag63"
+        if syn == "OER" and any(num >= 128 for cls, num in mod.outer_tags(c)):
+            bigtag = "+tag128"
         out.add("CHOICE/%s%s/%s@%s" % ("ext" if rt.ext is not None else "plain", bigtag, "add" if is_add else "root", syn))
         node_ids(mod, c.type, av, syn, out, depth + 1)
     elif k in ("SEQUENCE OF", "SET OF"):
